@@ -30,7 +30,8 @@ TAP = {'solves': 0, 'bad': []}
 def gates(tier):
     return {'list_calls': 4000, 'unordered_calls': 1500, 'ordered_calls': 800, 'multi_list_calls': 600,
             'grouped_calls': 400, 'no_partial_credit_calls': 600, 'permutation_sets': 150,
-            'munkres_solves_validated': 2000, 'nontrivial_unordered': 800, 'singlelist_subgrader_calls': 1000}
+            'munkres_solves_validated': 2000, 'nontrivial_unordered': 800, 'singlelist_subgrader_calls': 1000,
+            'direct_order_calls': 30000, 'grouped_sparse_calls': 300, 'grouped_calls_group_larger_than_group_count': 300}
 
 
 def install_tap(ctx):
@@ -255,7 +256,9 @@ def run_grouped(ctx):
     rng = ctx.rng
     for i in range(ctx.n(2400, 30000)):
         ngroups = rng.randint(2, 3)
-        size = rng.randint(2, 3) if ngroups * 3 <= 8 else 2
+        size = rng.choice([2, 3, 3, 4]) if ngroups == 2 else 2
+        # "sparse": the student has only one box right per group (the group pairing must still be the best one)
+        sparse = rng.random() < 0.4
         outer_ordered = rng.random() < 0.5
         inner_ordered = rng.random() < 0.5
         n = ngroups * size
@@ -284,15 +287,17 @@ def run_grouped(ctx):
             sperm = list(range(size))
             if not inner_ordered:
                 rng.shuffle(sperm)
+            lucky = rng.randrange(size)
             for idx, p in enumerate(boxes_of_group[k]):
                 tok = 'I%d' % p
                 inputs[p] = tok
-                truth[p] = (gperm[k], sperm[idx])
+                if not sparse or idx == lucky:
+                    truth[p] = (gperm[k], sperm[idx])
         # credits: correct pair 1 (or partial), others mostly 0 with some noise smaller than the signal
         for p in range(n):
             for gi in range(ngroups):
                 for s in range(size):
-                    if truth[p] == (gi, s):
+                    if truth.get(p) == (gi, s):
                         table[('G%dS%d' % (gi, s), inputs[p])] = rng.choice([1, 1, 0.7])
                     elif rng.random() < 0.15:
                         table[('G%dS%d' % (gi, s), inputs[p])] = rng.choice([0.1, 1 / 3.])
@@ -302,6 +307,10 @@ def run_grouped(ctx):
         ctx.ev()
         ctx.count('list_calls')
         ctx.count('grouped_calls')
+        if sparse:
+            ctx.count('grouped_sparse_calls')
+        if size > ngroups:
+            ctx.count('grouped_calls_group_larger_than_group_count')
         wit = {'grouping': slots, 'answers': answers, 'inputs': inputs, 'outer_ordered': outer_ordered,
                'inner_ordered': inner_ordered, 'table': sorted([[a, b, c] for (a, b), c in table.items()]), 'outcome': out.brief()}
         ctx.nontrivial(wit)
@@ -420,8 +429,45 @@ def run_singlelist_subgrader(ctx):
                           'entry grades %r match no one-to-one assignment of the credit matrix %r' % (grades, P), wit)
 
 
+def run_direct_order(ctx):
+    """find_optimal_order itself on larger / partial-credit matrices than whole graders can be driven through cheaply."""
+    from mitxgraders.listgrader import find_optimal_order
+    rng = ctx.rng
+    palettes = [[0, 0.5, 1], [0, 0.25, 0.5, 0.75, 1], [k / 10. for k in range(11)], None]
+    for i in range(ctx.n(40000, 600000)):
+        n = rng.choice([4, 5, 5, 6, 6, 6, 7])
+        pal = rng.choice(palettes)
+        C = [[(rng.choice(pal) if pal else round(rng.random(), 3)) for _ in range(n)] for _ in range(n)]   # C[input][answer]
+
+        def check(a, inp, C=C):
+            g = C[inp][a]
+            return {'ok': g == 1, 'grade_decimal': g, 'msg': '%d|%d' % (a, inp)}
+        try:
+            res = find_optimal_order(check, list(range(n)), list(range(n)))
+        except Exception as exc:  # noqa
+            ctx.violation('C05:direct:raises', repr(exc), {'credits': C})
+            continue
+        ctx.ev()
+        ctx.count('direct_order_calls')
+        pairs = [tuple(int(x) for x in r['msg'].split('|')) for r in res]
+        wit = {'credits_by_input_then_answer': C, 'pairs_answer_input': pairs}
+        if [p[1] for p in pairs] != list(range(n)):
+            ctx.violation('C05:direct:entry_at_wrong_position', 'entries are for inputs %r' % [p[1] for p in pairs], wit)
+            continue
+        if sorted(p[0] for p in pairs) != list(range(n)):
+            ctx.violation('C05:direct:not_one_to_one', 'answers used %r' % [p[0] for p in pairs], wit)
+            continue
+        total = sum(r['grade_decimal'] for r in res)
+        best = assign.max_profit(C)
+        if abs(total - best) > 1e-9:
+            ctx.violation('C05:direct:suboptimal_assignment', 'total %r, best possible %r' % (total, best), wit)
+        if i % 50 == 0:
+            ctx.nontrivial(['direct', C])
+
+
 def run(ctx):
     install_tap(ctx)
+    run_direct_order(ctx)
     run_flat(ctx)
     run_grouped(ctx)
     run_singlelist_subgrader(ctx)
